@@ -124,6 +124,13 @@ pub enum UErrB<'a> {
 #[zlink(interface = "t.none", crate = "zlink_core")]
 pub enum Never {}
 
+/// An error type with a single field-less error: as small as an error type with a member can be.
+#[derive(Debug, PartialEq, ReplyError)]
+#[zlink(interface = "t.err", crate = "zlink_core")]
+pub enum OneErr {
+    NotFound,
+}
+
 pub trait Target {
     const NAME: &'static str;
     fn recv(conn: &mut Connection<Sock>) -> impl Future<Output = Outcome> + '_;
@@ -256,6 +263,8 @@ reply_target!(TReplyValue, "reply_value", serde_json::Value, UErr);
 reply_target!(TReplyUnit, "reply_unit", (), UErr);
 reply_target!(TReplyBorrow, "reply_borrow", RBorrow<'_>, UErrB<'_>);
 reply_target!(TReplyNever, "reply_never", ROpt, Never);
+reply_target!(TReplyOne, "reply_one", ROpt, OneErr);
+reply_target!(TReplyOneUnit, "reply_one_unit", (), OneErr);
 
 pub const TARGET_NAMES: [&str; 9] = [
     "call_enum",
